@@ -143,3 +143,56 @@ func VerifReplicateFew(n int, dsts int) {
 	vAssert(vBlockedCount() == 0, "replicate/no-goroutine-left-blocked")
 	vCover("chans-replicate-few")
 }
+
+// VerifChansMergePrefilled: many inputs without the cost of many feeder goroutines. Every input
+// is a buffered channel that already holds its values and has been closed, so Merge runs to
+// completion in the calling goroutine and the only non-determinism left is which ready input the
+// (reflect.)Select picks each time - every such choice is explored. Input i holds digit i of
+// code, so over all codes every pattern of empty / one-item (/ two-item) inputs in every position
+// is covered - in particular inputs that are found closed first at a low or a high index while
+// others still hold values. Afterwards out holds every value exactly once, per-input order kept,
+// and Merge has returned.
+// (the values per input are the digits of code in the given base: base 2 - at most one value per
+// input - in the quick tier, base 3 for 4 and some 5-input patterns in the thorough tier)
+// args: inputs k, code, base
+//verif:case C12 quick VerifChansMergePrefilled 4 0..15 2
+//verif:case C12 thorough VerifChansMergePrefilled 4 0..80 3
+//verif:case C12 quick VerifChansMergePrefilled 5 0..31 2
+//verif:case C12 thorough VerifChansMergePrefilled 6 0..62 2
+//verif:case C12 thorough VerifChansMergePrefilled 5 100..120 3
+func VerifChansMergePrefilled(k int, code int, base int) {
+	cnt := make([]int, k)
+	total := 0
+	for i := range cnt {
+		cnt[i] = code % base
+		code /= base
+		total += cnt[i]
+	}
+	ro := make([]<-chan int, k)
+	for i := range ro {
+		c := make(chan int, 2)
+		for j := 0; j < cnt[i]; j++ {
+			c <- i*10 + j
+		}
+		close(c)
+		ro[i] = c
+	}
+	out := make(chan int, total+1)
+	Merge(out, ro...) // a Merge that does not return is reported as a deadlock
+	next := make([]int, k)
+	vAssert(len(out) == total, "merge/every-value-delivered")
+	for len(out) > 0 {
+		v := <-out
+		i, j := v/10, v%10
+		vAssert(i >= 0 && i < k, "merge/receives-only-sent-values")
+		if i < 0 || i >= k {
+			return
+		}
+		vAssert(j == next[i], "merge/per-input-order-each-once")
+		next[i] = j + 1
+	}
+	for i := range next {
+		vAssert(next[i] == cnt[i], "merge/every-value-delivered")
+	}
+	vCover("chans-merge-prefilled")
+}
